@@ -237,6 +237,12 @@ mod arc {
 
     impl Clone for ArcStr {
         fn clone(&self) -> Self {
+            #[cfg(aranya_verif)]
+            crate::verif::point(
+                crate::verif::site::ARC_FETCH_ADD,
+                self.ptr.as_ptr().cast::<u8>() as usize,
+                0,
+            );
             let old = self.inner().strong.fetch_add(1, atomic::Ordering::Relaxed);
 
             // This will only fail if someone does `loop { mem::forget(x.clone()) }`.
@@ -249,14 +255,32 @@ mod arc {
 
     impl Drop for ArcStr {
         fn drop(&mut self) {
+            #[cfg(aranya_verif)]
+            crate::verif::point(
+                crate::verif::site::ARC_FETCH_SUB,
+                self.ptr.as_ptr().cast::<u8>() as usize,
+                0,
+            );
             if self.inner().strong.fetch_sub(1, atomic::Ordering::Release) != 1 {
                 return;
             }
 
+            #[cfg(aranya_verif)]
+            crate::verif::point(
+                crate::verif::site::ARC_FENCE,
+                self.ptr.as_ptr().cast::<u8>() as usize,
+                0,
+            );
             atomic::fence(atomic::Ordering::Acquire);
 
             let layout = Layout::for_value(self.inner());
 
+            #[cfg(aranya_verif)]
+            crate::verif::point(
+                crate::verif::site::ARC_DEALLOC,
+                self.ptr.as_ptr().cast::<u8>() as usize,
+                0,
+            );
             // SAFETY: We have ensured we are the only owner of this arc
             // and can now drop the value and allocation.
             unsafe {
